@@ -696,6 +696,84 @@ def _elem_instances(foralls, e: Term, sa: SetAlg) -> list:
     return out
 
 
+def drop_implied_filters(t: Any, foralls: tuple, sa: SetAlg) -> Any:
+    """A loop that also has an exit path (a raise / return for some elements) carries, on its normal path, the fact that NO element took the
+    exit; its per-iteration filters repeat that fact (`if not bad(x)`), the comprehension spelling does not.  Filters of a generator over S
+    that are implied by a universal fact about S on this path are dropped (they are true for every element)."""
+    if not foralls or not isinstance(t, tuple):
+        return t
+    facts = []
+    for fa in foralls:
+        _, fp, fit, fconds = fa
+        if any(c[0] == "iter-elem" for c in fconds):
+            continue
+        facts.append((fp, alpha_normalise(sa.canon(sa.rewrite(fit))), fconds))
+    if not facts:
+        return t
+
+    def gens_fix(gens):
+        out = []
+        changed = False
+        for pat, it, conds in gens:
+            if not conds:
+                out.append((pat, it, conds))
+                continue
+            try:
+                key = alpha_normalise(sa.canon(sa.rewrite(it)))
+            except Exception:  # noqa: BLE001
+                out.append((pat, it, conds))
+                continue
+            inst = []
+            for fp, fkey, fconds in facts:
+                pv, wv = _pat_vars(fp), _pat_vars(pat)
+                if fkey != key or len(pv) != len(wv) or fp[0] != pat[0]:
+                    continue
+                sub = dict(zip(pv, wv))
+                try:
+                    inst.append(norm_formula(f_not(f_and(*[sa.cond(sa.rewrite(subst(c, sub))) for c in fconds]))))
+                except Exception:  # noqa: BLE001
+                    pass
+            if not inst:
+                out.append((pat, it, conds))
+                continue
+            kept = []
+            for c in conds:
+                parts = list(c[1:]) if c[0] == "and" else [c]
+                kp = []
+                for q in parts:
+                    try:
+                        implied = satisfy(f_and(*inst, *class_axioms(f_and(*inst, norm_formula(sa.cond(sa.rewrite(q))))), f_not(norm_formula(sa.cond(sa.rewrite(q)))))) is None
+                    except Exception:  # noqa: BLE001
+                        implied = False
+                    if not implied:
+                        kp.append(q)
+                if len(kp) != len(parts):
+                    changed = True
+                if kp:
+                    kept.append(kp[0] if len(kp) == 1 else ("and",) + tuple(kp))
+            out.append((pat, it, tuple(kept)))
+        return tuple(out), changed
+
+    def fn(s_):
+        if s_[0] == "comp" and len(s_) > 3 and s_[3]:
+            r = gens_fix(s_[3])
+            if isinstance(r, tuple) and len(r) == 2 and r[1]:
+                return ("comp", s_[1], s_[2], r[0])
+        if s_[0] == "accum" and len(s_) > 5 and s_[4]:
+            r = gens_fix(s_[4])
+            if isinstance(r, tuple) and len(r) == 2 and r[1]:
+                return s_[:4] + (r[0],) + s_[5:]
+        return None
+
+    def walk(v):
+        if not isinstance(v, tuple):
+            return v
+        if is_term(v):
+            return mapterm(v, fn)
+        return tuple(walk(x) for x in v)
+    return walk(t)
+
+
 def guarded_equal(x: Any, y: Any, guard, sa: SetAlg, depth: int = 0, foralls: tuple = ()) -> bool:
     """Are the two (raw) values equal on every input that satisfies the joint guard?  Set-valued operands are compared by membership
     under the guard (a part that is empty on these inputs does not count); everything else must have the same canonical form."""
@@ -739,7 +817,8 @@ def guarded_equal(x: Any, y: Any, guard, sa: SetAlg, depth: int = 0, foralls: tu
             return sa.is_setexpr(t) or t[0] == "bigunion" or (t[0] == "accum" and t[1] == "union")
 
         def listy(t):
-            return (t[0] == "comp" and t[1] in ("list", "gen")) or (t[0] == "accum" and t[1] == "concat") or t[0] == "concat"
+            return (t[0] == "comp" and t[1] in ("list", "gen")) or (t[0] == "accum" and t[1] == "concat") or t[0] == "concat" or (
+                t[0] == "call" and isinstance(t[1], str) and t[1].split(".")[-1] == "chain")
 
         def loop_built(t):
             return t[0] == "accum" and t[1] == "concat"
@@ -750,19 +829,22 @@ def guarded_equal(x: Any, y: Any, guard, sa: SetAlg, depth: int = 0, foralls: tu
             mx, my = sa.member(e, xs), sa.member(e, ys)
             ax = _nonempty_axioms(e, (mx, my), sa) + _elem_instances(foralls, e, sa)
             try:
-                return (satisfy(f_and(guard, norm_formula(mx), f_not(norm_formula(my)), *ax)) is None
-                        and satisfy(f_and(guard, norm_formula(my), f_not(norm_formula(mx)), *ax)) is None)
+                if (satisfy(f_and(guard, norm_formula(mx), f_not(norm_formula(my)), *ax)) is None
+                        and satisfy(f_and(guard, norm_formula(my), f_not(norm_formula(mx)), *ax)) is None):
+                    return True
             except TooManyAtoms:
-                return False
-        if setlike(xs) and setlike(ys):
+                pass
+        elif setlike(xs) and setlike(ys):
             e = ("var", "§elem")
             mx, my = sa.member(e, xs), sa.member(e, ys)
             ax = _nonempty_axioms(e, (mx, my), sa) + _elem_instances(foralls, e, sa)
             try:
-                return (satisfy(f_and(guard, norm_formula(mx), f_not(norm_formula(my)), *ax)) is None
-                        and satisfy(f_and(guard, norm_formula(my), f_not(norm_formula(mx)), *ax)) is None)
+                if (satisfy(f_and(guard, norm_formula(mx), f_not(norm_formula(my)), *ax)) is None
+                        and satisfy(f_and(guard, norm_formula(my), f_not(norm_formula(mx)), *ax)) is None):
+                    return True
             except TooManyAtoms:
-                return False
+                pass
+        # not equal as a whole: the same construction with pairwise equal parts is still equal
         if x[0] != y[0] or len(x) != len(y):
             return False
         return all(guarded_equal(u, v, guard, sa, depth + 1, foralls) for u, v in zip(x[1:], y[1:]))
@@ -1018,8 +1100,9 @@ def compare_with_reference(model: Model, impl_q: str, ref_q: str, types: dict[st
                 continue
             if w is None:
                 continue
-            if a.kind == b.kind == "return" and not a.unknown and guarded_equal(
-                    a.raw, b.raw, joint_guard(a, b, sa), sa, foralls=tuple(c for c in tuple(a.conds) + tuple(b.conds) if c[0] == "forall-not")):
+            fas = tuple(c for c in tuple(a.conds) + tuple(b.conds) if c[0] == "forall-not")
+            if a.kind == b.kind == "return" and not a.unknown and (guarded_equal(a.raw, b.raw, joint_guard(a, b, sa), sa, foralls=fas) or (
+                    fas and guarded_equal(drop_implied_filters(a.raw, fas, sa), drop_implied_filters(b.raw, fas, sa), joint_guard(a, b, sa), sa, foralls=fas))):
                 agreed.add(id(b))
                 continue
             if a.unknown:
@@ -1055,8 +1138,20 @@ def compare_with_reference(model: Model, impl_q: str, ref_q: str, types: dict[st
                 for u in only_a:
                     for v in only_b:
                         if u[0] == v[0]:
-                            for fd in all_differences(u, v)[:4]:
-                                print("   atom pair differs at:", show(fd[0])[:600] if is_term(fd[0]) else fd[0], "\n        vs", show(fd[1])[:600] if is_term(fd[1]) else fd[1])
+                            def _deep(x_, y_, path=()):
+                                if x_ == y_:
+                                    return []
+                                if isinstance(x_, tuple) and isinstance(y_, tuple) and len(x_) == len(y_) and len(path) < 60:
+                                    ds = []
+                                    for k_, (p_, q_) in enumerate(zip(x_, y_)):
+                                        ds += _deep(p_, q_, path + (k_,))
+                                        if len(ds) > 3:
+                                            break
+                                    if ds:
+                                        return ds
+                                return [(path, x_, y_)]
+                            for pth, p_, q_ in _deep(u, v)[:3]:
+                                print("   deep diff at", pth, "\n       ", repr(p_)[:500], "\n     vs", repr(q_)[:500])
             res = (f, verdict, f"{d}  [on inputs with: {cond[:int(__import__("os").environ.get("YV_GUARD_CHARS", "300"))]}] (line {a.path.line})", sample)
             if verdict == "REFUTED":
                 return res
